@@ -157,6 +157,10 @@ func (V *Verifier) targets(prop string) []target {
 				out = append(out, target{nil, c, fname, true})
 				continue
 			}
+			if bc := V.byFunc[fn]; bc != nil {
+				out = append(out, target{fn, bc, fname, false})
+				continue
+			}
 			out = append(out, target{fn, c, fname, false})
 		}
 	}
@@ -297,6 +301,12 @@ func cmdCheck(args []string) int {
 		ore2 = regexp.MustCompile(*ore)
 	}
 	var results []*FuncResult
+	localsPath := filepath.Join(*verifDir, "expected", "locals.json")
+	if !*writeExpected {
+		for _, n := range V.applyRenames(localsPath) {
+			fmt.Println("note: contract follows renamed locals/parameters of " + n)
+		}
+	}
 	tg := V.targets(*prop)
 	sort.Slice(tg, func(i, j int) bool { return tg[i].name < tg[j].name })
 	for _, t := range tg {
@@ -377,6 +387,7 @@ func cmdCheck(args []string) int {
 		sort.Strings(names)
 		os.MkdirAll(filepath.Join(*verifDir, "expected"), 0755)
 		os.WriteFile(filepath.Join(*verifDir, "expected", *prop+"."+*tier+".obligations"), []byte(strings.Join(names, "\n")+"\n"), 0644)
+		V.writeLocals(localsPath)
 		if out, err := exec.Command("git", "-C", "/repo", "rev-parse", "HEAD").Output(); err == nil {
 			os.WriteFile(filepath.Join(*verifDir, "reference_commit"), out, 0644)
 		}
